@@ -354,4 +354,97 @@ def lateStepOld (cfg : TCfg) (ch : Choice) (s : TState) (e : LateEv) : TState :=
 
 def lateRunOld (cfg : TCfg) (ch : Choice) (evs : List LateEv) : TState := evs.foldl (lateStepOld cfg ch) {}
 
+/-! ## Debounce when the goroutine of an expired timer starts late
+
+```go
+func (d *debouncer) add(f func()) {
+	lock; if d.timer != nil { d.timer.Stop() }
+	var t *time.Timer
+	t = time.AfterFunc(d.duration, func() {          // runs in a goroutine of its own, any time after the expiry
+		lock; current := d.timer == t; unlock
+		if current { f() }
+	})
+	d.timer = t
+}
+func (d *debouncer) cancel() { lock; if d.timer != nil { d.timer.Stop(); d.timer = nil } }
+```
+`time.AfterFunc` does not run its function when the timer expires: the runtime creates a goroutine for it (`expire`),
+which starts whenever the scheduler pleases (`start`).  `Timer.Stop` removes a timer that has not expired yet; on an
+expired one it does nothing.  With punctual timers and immediately starting goroutines this is the model `dstep` above
+(the check `d.timer == t` always succeeds there).  Here the environment decides when timers expire (at or after their
+deadline) and when the goroutines start. -/
+
+structure LTimer where
+  id : Nat
+  deadline : Int
+  /-- ghost: position and instant of the call that created it -/
+  idx : Nat
+  tc : Int
+  /-- the timer has expired: its goroutine exists and can no longer be stopped -/
+  expired : Bool := false
+deriving Repr, BEq, DecidableEq
+
+structure LRun where
+  /-- instant at which the debounced function started -/
+  f : Int
+  id : Nat
+  idx : Nat
+  tc : Int
+  /-- ghost: position of the `start` event -/
+  «at» : Nat
+  /-- ghost: the most recent `call` / `cancel` event (position, was it a call) when the function started -/
+  lastAt : Option (Nat × Bool)
+deriving Repr, BEq, DecidableEq
+
+structure DLState where
+  now : Int := 0
+  n : Nat := 0
+  nextId : Nat := 0
+  /-- `d.timer`: the identity of the current timer -/
+  cur : Option Nat := none
+  timers : List LTimer := []
+  runs : List LRun := []
+  /-- ghost: position of the most recent `call` or `cancel` event, and whether it was a call -/
+  lastEv : Option (Nat × Bool) := none
+deriving Repr, BEq
+
+inductive DLEv where
+  | call
+  | cancel
+  | tick (dt : Nat)
+  /-- the runtime expires timer `id` (enabled when it is pending and its deadline has been reached) -/
+  | expire (id : Nat)
+  /-- the goroutine created for the expired timer `id` starts -/
+  | start (id : Nat)
+deriving Repr, DecidableEq, Inhabited
+
+/-- `d.timer.Stop()`: a timer that has not expired is removed; an expired one is left alone -/
+def stopCur (s : DLState) : List LTimer :=
+  match s.cur with
+  | none => s.timers
+  | some c => s.timers.filter fun t => !(t.id == c && !t.expired)
+
+/-- `checked = true`: the repaired code (the goroutine runs f only if its timer is still `d.timer`);
+`checked = false`: the code before the repair (it ran f unconditionally) -/
+def dlstep (checked : Bool) (wait : Nat) (s : DLState) (e : DLEv) : DLState :=
+  let s1 : DLState := match e with
+    | .call =>
+      { s with timers := stopCur s ++ [{ id := s.nextId, deadline := s.now + wait, idx := s.n, tc := s.now }],
+               cur := some s.nextId, nextId := s.nextId + 1, lastEv := some (s.n, true) }
+    | .cancel => { s with timers := stopCur s, cur := none, lastEv := some (s.n, false) }
+    | .tick dt => { s with now := s.now + dt }
+    | .expire id =>
+      { s with timers := s.timers.map fun t => if t.id == id && decide (t.deadline ≤ s.now) then { t with expired := true } else t }
+    | .start id =>
+      match s.timers.find? (fun t => t.id == id && t.expired) with
+      | none => s
+      | some t =>
+        let rest := s.timers.filter fun t' => !(t'.id == id)
+        if !checked || s.cur == some id then
+          { s with timers := rest, runs := s.runs ++ [{ f := s.now, id := id, idx := t.idx, tc := t.tc, «at» := s.n, lastAt := s.lastEv }] }
+        else { s with timers := rest }
+  { s1 with n := s1.n + 1 }
+
+def dlrun (checked : Bool) (wait : Nat) (evs : List DLEv) : DLState := evs.foldl (dlstep checked wait) {}
+
 end GoguVerif.Model.C20
